@@ -899,7 +899,10 @@ func (ea ExpressionAttribute) formatExpression() (exp []string) {
 	trimmed := strings.TrimSpace(ea.Expression.Value)
 	if !strings.Contains(trimmed, "\n") {
 		formatted, err := format.Source([]byte(trimmed))
-		if err != nil {
+		// An expression written on one line stays on one line: if gofmt would spread it over several
+		// lines (a struct type, a function literal), it is kept as written - the one-line layout below
+		// cannot hold line breaks, and the next pass would lay the attribute out differently.
+		if err != nil || bytes.Contains(formatted, []byte("\n")) {
 			return []string{trimmed}
 		}
 		return []string{string(formatted)}
